@@ -72,7 +72,7 @@ def check(ctx):
     r = ctx.call_method(I, st, o, "_qs_next", i, nn, probs, d2, cut)
     I2, s2 = ctx.interp(), State()
     ref = ctx.call_func(I2, s2, "ref.quickshift_ref.qs_next", i, nn, probs, d2, cut)
-    ctx.compare("R-POINTCONSISTENT", "_qs_next == reference step", N, r, ref, ctx.site(P.method(cls, "_qs_next")), alternatives=_alts(ctx, ("qs_next_sorted_scan",), i, nn, probs, d2, cut))
+    ctx.compare("R-POINTCONSISTENT", "_qs_next == reference step", N, r, ref, ctx.site(P.method(cls, "_qs_next")), alternatives=_alts(ctx, ("qs_next_sorted_scan", "qs_next_vectorised"), i, nn, probs, d2, cut))
     gab = arr("gabriel", "n", "n", inp=False, dtype="bool")
     I, st = ctx.interp(), State()
     o = ctx.bare_object(I, st, cls, {"gabriel_shell": integer("shell")})
@@ -87,11 +87,22 @@ def check(ctx):
             cfg = f"{mode},cell={cell}"
             calls = {"qs": [], "gs": [], "gab": []}
 
+            def _positional(clo, args, kw):
+                # arguments in the order of the parameters, however they were passed
+                ps = clo.fi.params()[1:]
+                out = list(args)
+                for p_ in ps[len(out):]:
+                    if p_ in kw:
+                        out.append(kw[p_])
+                return out
+
             def qs(interp, clo, args, kw, st_, node):
+                args = _positional(clo, args, kw)
                 calls["qs"].append(args)
                 return V("int", T("QS", *[a.term for a in args]), shape=())
 
             def gs(interp, clo, args, kw, st_, node):
+                args = _positional(clo, args, kw)
                 calls["gs"].append(args)
                 return V("int", T("GS", *[a.term for a in args]), shape=())
 
